@@ -700,6 +700,76 @@ pub fn gen_c16_yuv(sh: &mut Shards, o: &Opts) -> u64 {
             }
         }
     }
+    // neutral samples NEXT TO coloured ones, in every subsampling: chroma samples alternate neutral / random in a
+    // checkerboard, luma is random with the nominal black and white codes mixed in; only the neutral pixels are judged
+    for (ci, (c, st)) in all_matrix_cfgs().into_iter().enumerate() {
+        if !(o.thorough || ci % 3 == (o.seed as usize) % 3) {
+            continue;
+        }
+        let mut rng = Rng::new(o.seed, 0x1616_3300 + ci as u64);
+        let n = c.n;
+        let mid = 1u16 << (n - 1);
+        let maxc = (1u64 << n) - 1;
+        let kq = 1u32 << (n - 8);
+        let (blk, wht) = if c.full { (0u16, maxc as u16) } else { ((16 * kq) as u16, (235 * kq) as u16) };
+        for (li, &(sx, sy)) in [(0u8, 0u8), (1, 1), (0, 1), (1, 0), (2, 0), (2, 2)].iter().enumerate() {
+            let (w, h) = (16usize, 8usize);
+            let c = Cfg { ssx: sx, ssy: sy, tc: crate::util::TC_LBL[(ci + li) % 18], cp: crate::util::CP_LBL[(ci + 2 * li) % 13], ..c };
+            let px: Vec<[u16; 3]> = (0..w * h)
+                .map(|i| {
+                    let (x, y) = (i % w, i / w);
+                    let neutral = ((x >> sx) + (y >> sy)) % 2 == 0;
+                    let luma = match rng.below(6) {
+                        0 => blk,
+                        1 => wht,
+                        _ => rng.below(maxc + 1) as u16,
+                    };
+                    if neutral {
+                        [luma, mid, mid]
+                    } else {
+                        [luma, rng.below(maxc + 1) as u16, rng.below(maxc + 1) as u16]
+                    }
+                })
+                .collect();
+            let eff: Vec<[u16; 3]> = (0..w * h)
+                .map(|i| {
+                    let (x, y) = (i % w, i / w);
+                    let b = ((y >> sy) << sy) * w + ((x >> sx) << sx);
+                    [px[i][0], px[b][1], px[b][2]]
+                })
+                .collect();
+            let mut s = String::new();
+            let _ = write!(s, "\"ev\":\"grey\",\"mix\":1,\"cfg\":{},\"st\":{st},\"w\":{w},\"h\":{h},\"px\":", c.json());
+            list(&mut s, &eff, |o2, p| {
+                let _ = write!(o2, "[{},{},{}]", p[0], p[1], p[2]);
+            });
+            let pads = [[(0usize, 0usize); 3], [(0, 0), (9, 1), (0, 0)], [(2, 0), (0, 0), (17, 2)]][(ci + li) % 3];
+            let res: Result<Vec<[f32; 3]>, String> = if st == 8 {
+                crate::util::guard_s(|| {
+                    let y = crate::frames::yuv444_padded::<u8>(&px, w, h, &c, pads).map_err(|e| format!("ctor:{}", crate::frames::err_name_yuv(e)))?;
+                    Rgb::try_from(&y).map(|r| r.data().to_vec()).map_err(|e| crate::frames::err_name_conv(e).to_string())
+                })
+            } else {
+                crate::util::guard_s(|| {
+                    let y = crate::frames::yuv444_padded::<u16>(&px, w, h, &c, pads).map_err(|e| format!("ctor:{}", crate::frames::err_name_yuv(e)))?;
+                    Rgb::try_from(&y).map(|r| r.data().to_vec()).map_err(|e| crate::frames::err_name_conv(e).to_string())
+                })
+            };
+            match res {
+                Ok(out) => {
+                    s.push_str(",\"res\":\"ok\",\"out\":");
+                    list(&mut s, &out, px_fx);
+                    s.push_str(",\"ob\":");
+                    list(&mut s, &out, crate::util::px_bits);
+                }
+                Err(e) => {
+                    let _ = write!(s, ",\"res\":\"{e}\"");
+                }
+            }
+            sh.emit(&s);
+            evals += (w * h) as u64;
+        }
+    }
     // large grey frames (size-dependent decode paths), probed; every luma code appears
     for (k, &n) in [8u8, 10, 13, 16].iter().enumerate() {
         for full in [false, true] {
